@@ -207,12 +207,25 @@ Fixpoint check_from (np nc na ns : N) (hist : list event) (tracked_in : list (si
                        | Some fresh => check_starts hist' tracked_in' fresh
                        | None => Some "handler-identity"%string end)
           (first_some (match e with
+                       | Enrol c pe _ =>
+                           (* addPeer answered "not yet there" (the inbound path then announces
+                              Connected): this call must have registered the peer with this record;
+                              otherwise the peer's registration is untouched *)
+                           let p := remote c in
+                           if o_ret o =? 0
+                           then guard (negb (reg_in prev p) &&
+                                       zlist_eqb (row (sn_over sn) p) [Z.of_N (p_addr pe); p_role pe])
+                                      "announced-unregistered"
+                           else guard (zlist_eqb (row (sn_over sn) p) (row (sn_over prev) p))
+                                      "unannounced-registration"
+                       | _ => None end)
+          (first_some (match e with
                        | SLookup s p =>
                            (* a new stream from a peer that is not registered is reset *)
                            if (cell (sn_sw prev) s =? 0) && negb (reg_in prev p)
                            then guard (cell (sn_sw sn) s =? 4) "handler-unregistered" else None
                        | _ => None end)
-                      (guard (check_ctx ns hist' sn) "ctx-not-cancelled")))))) in
+                      (guard (check_ctx ns hist' sn) "ctx-not-cancelled"))))))) in
         first_some here (check_from np nc na ns hist' tracked_in' sn rest)
   end.
 
